@@ -2177,6 +2177,35 @@ pub fn c10_get_return(w: &mut MWorld, opi: usize) -> Option<Violation> {
             if !calls.is_empty() {
                 return c10("wait_timeout_only_while_waiting", "Timeout(Wait) although the call had already obtained a slot".into());
             }
+            // A slot that became free for this caller before its deadline must be obtained, however
+            // late the caller is polled. Judged where nobody else could have taken the slot: no
+            // other get() overlapped the call, no resize / close anywhere in the history.
+            let deadline = start.saturating_add(wms);
+            let alone = !w.ops.iter().enumerate().any(|(i, o)| {
+                i != opi
+                    && ((matches!(o.op, Op::Get { .. }) && o.actor != op.actor && o.return_step.map(|r| r >= op.invoke_step).unwrap_or(true) && o.invoke_step <= engine::current_step())
+                        || matches!(o.op, Op::Resize { .. } | Op::Close))
+            });
+            if alone && w.sc.pool.max_size > 0 {
+                let freed = w.ops.iter().find(|o| {
+                    matches!(o.op, Op::Return { .. } | Op::Take { detach_panics: false, .. })
+                        && matches!(o.result, Some(OpRes::Unit) | Some(OpRes::Taken(_)))
+                        && o.invoke_step >= op.invoke_step
+                        && o.return_ms.map(|t| t < deadline).unwrap_or(false)
+                });
+                if let Some(r) = freed {
+                    return c10(
+                        "wait_obtains_freed_slot",
+                        format!(
+                            "Timeout(Wait) (deadline at {} ms) although {:?} freed a slot at {} ms and nobody else asked for one",
+                            deadline,
+                            r.op,
+                            r.return_ms.unwrap_or(0)
+                        ),
+                    );
+                }
+                w.cnt.probe("wait_timeout_without_free_slot");
+            }
             w.cnt.probe("wait_timeout_fired");
         }
     }
